@@ -43,9 +43,6 @@ Definition ex_run : list item :=
 
 Definition ex_ids : list N := [1; 3; 5; 7; 9; 11].
 
-Example ex_run_in_scope : forallb in_scope ex_run = true.
-Proof. vm_compute. reflexivity. Qed.
-
 (* every reaction allowed, relation R kept (on ex_ids): the executable check says 0 *)
 Example ex_run_checks : srv_check_from ex_cfg ex_ids 0 ex_init RS.init ex_run = 0%nat.
 Proof. vm_compute. reflexivity. Qed.
@@ -58,6 +55,43 @@ Qed.
 
 Example ex_run_frames_on_1_complete :
   RS.complete_request (frames_on 1 ex_run) = true.
+Proof. vm_compute. reflexivity. Qed.
+
+(* the fifth item (DATA on stream 1) may take effect in the state reached, and does *)
+Example ex_run_item4_legal :
+  let pre := firstn 4 ex_run in
+  let c := fst (srv_run_items ex_cfg ex_init RS.init pre) in
+  let s := snd (srv_run_items ex_cfg ex_init RS.init pre) in
+  let i := RFrame (fr KData 0 1 [104; 105] 0 0 0) in
+  nth_error ex_run 4 = Some (IIn i) /\ RS.may_process s (abs_input i) = true /\
+  resolve s (abs_input i) (reaction_of hpack_state c i (srv_feed ex_cfg c (IIn i))) = RS.Process.
+Proof. vm_compute. repeat split. Qed.
+
+(* two responses wait for send window (initial window 2); the SETTINGS frame that raises it makes
+   flushStreams send the rest of both and close both streams in one step *)
+Definition ex_flush : list item :=
+  [ F (mkSFrame KSettings 0 0 0 [] 0 0 0 false 0 true 2);
+    F (fr KHeaders 5 1 GET 0 0 0); F (fr KHeaders 5 3 GET 0 0 0); IDone 1 resp; IDone 3 resp;
+    F (mkSFrame KSettings 0 0 0 [] 0 0 0 false 0 true 10) ].
+Example ex_flush_checks : srv_check_from ex_cfg ex_ids 0 ex_init RS.init ex_flush = 0%nat.
+Proof. vm_compute. reflexivity. Qed.
+Example ex_flush_last_step :
+  let c := fst (srv_run_items ex_cfg ex_init RS.init (firstn 5 ex_flush)) in
+  new_out hpack_state c (srv_feed ex_cfg c (F (mkSFrame KSettings 0 0 0 [] 0 0 0 false 0 true 10))) =
+  [OSettingsAck; OData 1 true [3]; OData 3 true [3]; ORelease 1 true; ORelease 3 true].
+Proof. vm_compute. reflexivity. Qed.
+
+(* the request timer resets an overdue stream whose handler runs (1) and one whose header block is still
+   arriving (3); the rest of the block is discarded, WINDOW_UPDATE on the reset stream ignored *)
+Definition ex_tcfg : config := mkCfg 100 0 0 5 65535.
+Definition ex_timer : list item :=
+  [ F (fr KHeaders 5 1 GET 0 0 0); F (fr KHeaders 0 3 [0x82] 0 0 0); ILocal (LClock 100); ILocal LTimer;
+    F (fr KCont 4 3 [0x84; 0x87] 0 0 0); F (fr KWinUpd 0 1 [] 0 0 10); IDone 1 resp ].
+Example ex_timer_checks : srv_check_from ex_tcfg ex_ids 0 (init_conn ex_tcfg srv_init_hpack) RS.init ex_timer = 0%nat.
+Proof. vm_compute. reflexivity. Qed.
+Example ex_timer_resets :
+  filter (fun o => match o with ORst _ _ => true | _ => false end)
+         (trace (fst (srv_run_items ex_tcfg (init_conn ex_tcfg srv_init_hpack) RS.init ex_timer))) = [ORst 1 8; ORst 3 8].
 Proof. vm_compute. reflexivity. Qed.
 
 (* ---------- the known deviations are real ---------- *)
